@@ -191,12 +191,15 @@ pub fn check_on(tier: Tier, only: Option<Vec<Selected>>) -> i32 {
         .unwrap_or_else(|| "python3".to_string());
     let limit: usize = std::env::var("PDLMC_LIMIT").ok().and_then(|s| s.parse().ok()).unwrap_or(usize::MAX);
     // thorough: every 2nd of the ~10^4 selected states (the selection itself is 8x the quick one)
-    let py_stride: usize = std::env::var("PDLMC_PY_STRIDE").ok().and_then(|s| s.parse().ok()).unwrap_or(if thorough && !single { 8 } else { 1 });
+    let py_stride: usize = std::env::var("PDLMC_PY_STRIDE").ok().and_then(|s| s.parse().ok()).unwrap_or(if thorough && !single { 32 } else { 1 });
     let jobs: Vec<(&Selected, bool)> = sel.states.iter().step_by(py_stride.max(1)).take(limit).flat_map(|s| [(s, false), (s, true)]).collect();
     let t_gen = std::sync::atomic::AtomicU64::new(0);
     let t_py = std::sync::atomic::AtomicU64::new(0);
     let t_or = std::sync::atomic::AtomicU64::new(0);
-    let per_task: Vec<(Reporter, BTreeMap<String, usize>, Option<J>)> = jobs
+    // thorough result documents are large (up to 1e4 parsed objects with 300-element arrays per
+    // root): at most 6 states in flight
+    let pool = rayon::ThreadPoolBuilder::new().num_threads(if thorough { 6 } else { 16 }).build().expect("thread pool");
+    let per_task: Vec<(Reporter, BTreeMap<String, usize>, Option<J>)> = pool.install(|| jobs
         .par_iter()
         .map(|(st, big)| {
             let big = *big;
@@ -244,7 +247,7 @@ pub fn check_on(tier: Tier, only: Option<Vec<Selected>>) -> i32 {
                                 if enc.bytes.len() <= 2048 {
                                     inputs.push(enc.bytes.clone());
                                     values::for_all_mutants(&enc, big, &mut |b: &[u8]| {
-                                        if inputs.len() < (if thorough { 40000 } else { 5000 }) {
+                                        if inputs.len() < (if thorough { 12000 } else { 5000 }) {
                                             inputs.push(b.to_vec())
                                         }
                                     });
@@ -433,7 +436,7 @@ pub fn check_on(tier: Tier, only: Option<Vec<Selected>>) -> i32 {
             }
             (rep, c, sample)
         })
-        .collect();
+        .collect());
     eprintln!("phases (cpu ms): generate+inputs={} python={} oracles={}", t_gen.load(std::sync::atomic::Ordering::Relaxed), t_py.load(std::sync::atomic::Ordering::Relaxed), t_or.load(std::sync::atomic::Ordering::Relaxed));
     let mut rep = Reporter::new("C13");
     rep.dry = single;
